@@ -159,6 +159,9 @@ partial def gP : P G := do
   | "cfgjust" => do let c ← cfgFnP; pure (.configureJust c (← natList))
   | "withstate" => pure (.withState (← gP))
   | "memo" => do let i ← nat; pure (.memoized i (← gP))
+  | "memonest" => do let i ← nat; let a ← gP; pure (.memoized i (.memoized (i + 1000) a))
+  | "memozst" => do let i ← nat; pure (.to .unit (.or_ (.memoized i (.ignored .any)) (.memoized (i + 1000) .end_)))
+  | "lazy" => do let a ← gP; pure (.thenIgnore a (.iterP (.repeated .any 0 none)))
   | "call" => pure (.call (← nat))
   | "boxed" => pure (.boxed (← gP))
   | t => throw s!"bad grammar token {t}"
@@ -245,6 +248,23 @@ def renderTop : TopOut → String
     let ir := match r.intoResult with | .ok _ => "ok" | .error _ => "err"
     s!"R {out} ; {joinWith "|" (r.errs.map renderErr)} ; insp={insp} ; ir={ir}"
 
+/-- summary of the ghost log of a failed parse: furthest position, and what the events there say
+    (the first custom message, else the union of the expected patterns) -/
+def renderLogSummary (env : Env) (log : List Loc) : String :=
+  match log with
+  | [] => "none"
+  | _ =>
+    let p := log.foldl (fun m l => max m l.pos) 0
+    let at_ := log.filter (·.pos == p)
+    let custom := at_.findSome? fun (l : Loc) => match l.err.reason with | Reason.custom m => some m | _ => none
+    let desc := match custom with
+      | some m => s!"C{m}"
+      | none =>
+        let exps := at_.flatMap fun (l : Loc) => match l.err.reason with | Reason.ef e _ => e.map renderPat | _ => []
+        "E[" ++ joinWith "," (sortStrings exps).eraseDups ++ "]"
+    let span := match at_ with | l :: _ => s!"{l.err.span.1}-{l.err.span.2}" | [] => "-"
+    s!"{env.off p} {span} {desc}"
+
 def renderEmis : Emis → String
   | .user l => renderErr l.err
   | .recovered p => s!"rec@{p}"
@@ -326,7 +346,7 @@ def mappedSpans (n gap : Nat) : List (Nat × Nat) :=
 
 /-- does a `memoized` node occur in the case? (decides `Env.memoOn`: without such nodes the machine is run in exactly
     the configuration the refinement theorems cover) -/
-def caseHasMemo (line : List String) : Bool := line.contains "memo"
+def caseHasMemo (line : List String) : Bool := line.any (·.startsWith "memo")
 
 def mkEnv (c : Case) (toks : List Nat) : Env :=
   let n := toks.length
@@ -339,7 +359,11 @@ def runCase (c : Case) (out : IO.FS.Stream) : IO Unit := do
   for toks in c.inputs do
     let env := mkEnv c toks
     let fuel := c.fuel
-    out.putStrLn s!"{c.id}.{k} M {renderTop (parseTop fuel env c.mode c.main)}"
+    let top := parseTop fuel env c.mode c.main
+    out.putStrLn s!"{c.id}.{k} M {renderTop top}"
+    match top with
+    | .result r final => if r.output.isNone then out.putStrLn s!"{c.id}.{k} X {renderLogSummary env final.log}"
+    | _ => pure ()
     out.putStrLn s!"{c.id}.{k} S {renderSpec (pegTop fuel env c.main)}"
     k := k + 1
 
